@@ -210,6 +210,7 @@ type RunResult struct {
 	Pre      map[string]vkit.Digest
 	Post     map[string]vkit.Digest
 	Final    map[string]vkit.Digest // taken by the parent after the child exited
+	CIEnv    []string // the CI-detection variables the child ran with
 	CleanOut string
 	Summary  *Summary
 	Summary2 *Summary // what the second Clean call printed (CleanTwice)
@@ -227,13 +228,26 @@ func cleanEnv(o RunOpt, outdir, scn string) []string {
 		"NO_COLOR=1", "_=/usr/bin/env",
 		"VERIF_SCENARIO=" + scn, "VERIF_OUTDIR=" + outdir,
 	}
-	if o.CI {
-		env = append(env, "CI=true")
-	}
+	env = append(env, ciEnv(o.CI, scn)...)
 	if o.Update != "" {
 		env = append(env, "UPDATE_SNAPS="+o.Update)
 	}
 	return append(env, o.Env...)
+}
+
+// ciEnv: the variables by which the child is (or is not) detected as a CI run; the
+// flavour is a function of the scenario file's bytes. Detection is ciinfo's: any of the
+// generic variables or a vendor's variables being present, unless CI=false.
+func ciEnv(ci bool, scn string) []string {
+	b, _ := os.ReadFile(scn)
+	h := vkit.Hash("ci-flavour", string(b))
+	if ci {
+		fl := [][]string{{"CI=true"}, {"CI=true"}, {"CI=1"}, {"CI="}, {"GITHUB_ACTIONS=true"}, {"BUILD_NUMBER=17"},
+			{"CONTINUOUS_INTEGRATION=true"}, {"GITLAB_CI=true"}, {"CI=true", "GITHUB_ACTIONS=true"}, {"RUN_ID=5"}, {"CIRCLECI=true"}}
+		return fl[h%uint64(len(fl))]
+	}
+	fl := [][]string{nil, nil, nil, {"CI=false"}, {"CI=false", "BUILD_NUMBER=17"}, {"CI=false", "GITHUB_ACTIONS=true"}}
+	return fl[h%uint64(len(fl))]
 }
 
 // RunChild executes one real test process.
@@ -270,6 +284,7 @@ func (p *Program) RunChild(o RunOpt) *RunResult {
 		cmd.Dir = filepath.Join(p.Root, o.PkgDir)
 	}
 	cmd.Env = cleanEnv(o, outdir, scn)
+	res.CIEnv = ciEnv(o.CI, scn)
 	var eb bytes.Buffer
 	cmd.Stdout, cmd.Stderr = &eb, &eb
 	res.Err = cmd.Run()
